@@ -5,6 +5,7 @@ template gives: exactly the requested licence expressions, copyright lines and c
 import ReuseVerif.Lemmas.C07Render
 import ReuseVerif.Lemmas.C07Tags
 import ReuseVerif.Lemmas.ExtractEmbed
+import ReuseVerif.Model.StyleTable
 
 namespace C07A
 open Py Model Spec Py.Re
@@ -518,5 +519,18 @@ theorem renderedHeader_default {endRe : Re} (c : HdrCfg) (info : Extracted) (m :
   have hE : Ends (headerLines c.style m (bodyLines A C L)) :=
     ends_header hm sf _ (lines_ne_nil _ _) (ends_gap _ _ (fun l hl => (hX l hl).1) (fun l hl => (hY l hl).1))
   rw [stripLF_join_ends _ hE (fun l hl => noNL_of_noBreak (header_noBreak sf rq l hl))]
+
+/-! ### naming a style of the table (for examples) -/
+
+/-- the style of the generated table with the given class name (an empty record when there is none) -/
+def styleNamed (n : String) : Style :=
+  (styleByName n).getD ⟨"", "", [], none, [], [], [], [], [], [], [], []⟩
+
+theorem styleNamed_mem (n : String) (h : (styleByName n).isSome = true) : styleNamed n ∈ Generated.styles := by
+  obtain ⟨s, hs⟩ := Option.isSome_iff_exists.mp h
+  unfold styleNamed
+  rw [hs]
+  unfold styleByName at hs
+  exact List.mem_of_find?_eq_some hs
 
 end C07A
